@@ -17,6 +17,17 @@ CHECKS = {
          "Solver-discharged obligations over the complete documented domain (1583..4099 western/orthodox, 326..9999 Julian, every method value): equality with Meeus/Jones/Butcher resp. Meeus' Julian algorithm, "
          "Julian->Gregorian shift, Sunday, 22 Mar..25 Apr window, ValueError for bad methods, valid date() arguments. The bound is the property's own domain, so within it the claim is exhaustive.",
          "Trusted: z3/cvc5, the ~300-line AST translator (validated every run against the real function on the repo's test vectors and seeded years; rejects unknown AST nodes), the reference algorithms in harness/c19_oracle.py.", "§5 C19", "astbv"),
+ "C20": ("symbolic execution (CrossHair core + z3) of the real isoparser on ALL byte strings of a given length (every byte an unconstrained solver variable) against a strict reference grammar written as one fork-free formula; path-exhaustive per length",
+         "model_checking",
+         "Bounded symbolic model checking: for each entry point (parse_isodate, parse_isotime, parse_tzstr, isoparse with sep None/'T'/' ') and each input length in the cell list, every path of the real parser over "
+         "arbitrary bytes is explored; on accepting paths z3 proves the bytes match a strict ISO-8601 layout and the value is its denotation; any exception other than ValueError is a violation.",
+         "Trusted: CrossHair's bytes/datetime models with the stubs of engine/stubs.py (int(bytes) DFA validated each run; fork-free isdigit/contains; forward-map calendar decomposition; lemma year_step proved each run), "
+         "each path's witness replayed natively on real datetime. Quick tier decides week-shaped inputs for 5 year residues mod 400; thorough for all years. str/stream inputs and longer strings are outside.", "§5 C20", "chx"),
+ "C07": ("symbolic execution (CrossHair core + z3) of the real isoparser on structured ISO-8601 forms whose digits (and sign / free separator bytes) are solver variables; z3 proves accept-and-equal-denotation on every path; path-exhaustive per form",
+         "model_checking",
+         "Bounded symbolic model checking over the rendered fields: every datetime has exactly one rendering per form, so quantifying over all digit values of a form covers all datetimes in that form. "
+         "Each path shows: a well-formed rendering is accepted, and the returned value equals the denotation (fraction truncation, 24:00, zero offset == tz.UTC, tzoffset seconds).",
+         "Trusted: as C20. Forms outside the cell list, fractions longer than the listed digit counts, str/stream input equivalence and digit separators under sep=None are outside.", "§5 C07", "chx"),
 }
 NA = {}
 
